@@ -18,7 +18,7 @@ intro="""## 9. Seeded changes: which checks catch which
 %d changes to lmorg/murex were written by independent sub-agents that saw only the text of one property and a scratch
 worktree of /repo (nothing from /verif): a first round with one change for each of the 37 claimed properties, and a
 second round (directories `<ID>b`) in which the seeder was additionally told to pick the part of the statement that a
-verification effort is least likely to have covered, and a third round for eight properties (`<ID>c`) asking for a
+verification effort is least likely to have covered, and a third round for sixteen properties (`<ID>c`) asking for a
 trigger that needs two features of the statement together or a multi-step history. Each compiles, passes the existing
 tests of the packages it touches (and, per the seeder, the broader suite) and comes with a demonstration test that fails
 with the change and passes without it; all of that was re-confirmed by the main session in a scratch worktree
